@@ -90,7 +90,53 @@ sys.exit(1 if bad else 0)
 '''
 
 
+NESTED_RET = '''
+import sys, os, tempfile, importlib.util
+src = """
+from typing import Tuple
+from onnxscript import script, FLOAT
+from onnxscript import opset18 as op
+
+@script(default_opset=op)
+def untyped_body(x: FLOAT["N"]) -> FLOAT["N"]:
+    def body(s, a):
+        t = s + a
+        return t, t
+    total, cum = op.Scan(op.Constant(value_float=0.0), x, body=body, num_scan_inputs=1)
+    return cum
+
+def typed_body():
+    @script(default_opset=op)
+    def f(x: FLOAT["N"]) -> FLOAT["N"]:
+        def body(s: FLOAT, a: FLOAT) -> Tuple[FLOAT, FLOAT]:
+            t = s + a
+            return t, t
+        total, cum = op.Scan(op.Constant(value_float=0.0), x, body=body, num_scan_inputs=1)
+        return cum
+    return f
+"""
+d = tempfile.mkdtemp(); path = os.path.join(d, "nr_case.py"); open(path, "w").write(src)
+spec = importlib.util.spec_from_file_location("nr_case", path); mod = importlib.util.module_from_spec(spec); sys.modules["nr_case"] = mod; spec.loader.exec_module(mod)
+import onnx
+bad = 0
+m = mod.untyped_body.to_model_proto()
+try:
+    onnx.checker.check_model(m, full_check=True)
+except Exception as e:
+    print("a function annotated `-> FLOAT[N]` that defines an un-annotated nested Scan body: the model output has no type; checker:", str(e).splitlines()[0][:150])
+    bad += 1
+try:
+    mod.typed_body().to_model_proto()
+except Exception as e:
+    print("a function annotated `-> FLOAT[N]` with a nested body annotated `-> Tuple[FLOAT, FLOAT]` is refused:", str(e).splitlines()[0][:220])
+    bad += 1
+sys.exit(1 if bad else 0)
+'''
+
+
 def replay(ob):
+    if "nested_def.declared_return_types" in ob["name"]:
+        return NESTED_RET
     if "to_model_proto" in ob["name"] or "get_called_functions" in ob["name"]:
         return MODELPROTO
     if "signature" in ob["name"]:
